@@ -8,6 +8,7 @@ package main
 // value; two computations agree when their forms are identical.
 
 import (
+	"go/types"
 	"fmt"
 	"go/constant"
 	"go/token"
@@ -272,6 +273,29 @@ func (z *Polyizer) Of(v ssa.Value) Poly {
 	if z.Atom != nil {
 		if n := z.Atom(v); n != "" {
 			return polyAtom(n)
+		}
+	}
+	// len(x[lo:hi]) is hi - lo (hi defaults to len(x))
+	if call, ok := v.(*ssa.Call); ok {
+		if bi, ok := call.Common().Value.(*ssa.Builtin); ok && bi.Name() == "len" && len(call.Common().Args) == 1 {
+			if sl, ok := call.Common().Args[0].(*ssa.Slice); ok {
+				if _, isSlice := sl.X.Type().Underlying().(*types.Slice); isSlice && sl.Max == nil {
+					var hi Poly
+					if sl.High != nil {
+						hi = z.Of(sl.High)
+					} else {
+						hi = polyAtom("len(" + z.defaultAtom(sl.X) + ")")
+					}
+					if sl.Low != nil {
+						return hi.add(z.Of(sl.Low), -1)
+					}
+					return hi
+				}
+			}
+			// (the same name for every len of the same slice value)
+			if _, isSlice := call.Common().Args[0].Type().Underlying().(*types.Slice); isSlice {
+				return polyAtom("len(" + z.defaultAtom(call.Common().Args[0]) + ")")
+			}
 		}
 	}
 	switch x := v.(type) {
